@@ -84,12 +84,13 @@ def dist_fix_point_bcd(
 
     grad_ptr = 0
     for idx, g in enumerate(ws):
-        if lipschitz_ws[idx] == 0.:
-            continue
         grp_g_indices = penalty.grp_indices[penalty.grp_ptr[g]: penalty.grp_ptr[g+1]]
 
         grad_g = grad_ws[grad_ptr: grad_ptr + len(grp_g_indices)]
         grad_ptr += len(grp_g_indices)
+
+        if lipschitz_ws[idx] == 0.:
+            continue
 
         step_g = 1 / lipschitz_ws[idx]
         w_g = w[grp_g_indices]
